@@ -110,28 +110,19 @@ def noTopDelim (d : Str) (o c : Char) : Int → Str → Bool
   | _, [] => true
   | dep, x :: r => (!inSet d x || dep != 0) && noTopDelim d o c (dep + delta o c x) r
 
-/-- does `s` (from a token start on) decompose into the tokens and separators between them?
-Non-solid: a separator is a maximal non-empty run of delimiter characters, the text may end with
-one; solid: a separator is the delimiter itself, the text ends with a token. -/
-def matchTokens (d : Str) (solid : Bool) : List Str → Str → Bool
-  | [], r => r.isEmpty
-  | [t], r =>
-    isPrefix t r && (
-      let rest := r.drop t.length
-      if solid then rest.isEmpty else rest.all (inSet d))
-  | t :: t' :: ts, r =>
-    isPrefix t r && (
-      let rest := r.drop t.length
-      if solid then isPrefix d rest && matchTokens d solid (t' :: ts) (rest.drop d.length)
-      else
-        let rest' := rest.dropWhile (inSet d)
-        decide (rest'.length < rest.length) && matchTokens d solid (t' :: ts) rest')
-
-/-- the tokens of NestedStringTokenizer(s, open, end, delimiters, solid) re-joined with delimiters
-give back the input (after the leading delimiters in non-solid mode), for any bracket strings -/
-def nestedJoinOk (s d : Str) (solid : Bool) (tokens : List Str) : Bool :=
-  if solid then matchTokens d true tokens s
-  else matchTokens d false tokens (s.dropWhile (inSet d)) && tokens.all (fun t => !t.isEmpty)
+/-- **the round-trip law of the NestedStringTokenizer constructor** (any bracket strings), on
+(`tokens_`, `splits_`) and the text `u` of `unparseRemainingTokens()`: the same law as for the
+plain tokenizer without empty tokens — re-joining the tokens with the recorded separators gives
+back the input after its leading delimiters (all of it in solid mode), `u` is the input without
+leading / trailing delimiters (the input itself in solid mode); separators are non-empty runs of
+delimiter characters (the delimiter string in solid mode); tokens are not empty (non-solid) -/
+def nestedRtOk (s d : Str) (solid : Bool) (tokens splits : List Str) (u : Str) : Bool :=
+  let lead := if solid then [] else s.takeWhile (inSet d)
+  (lead ++ interleave tokens splits == s)
+  && (u == unparseSpec d solid false s)
+  && (tokens.length == splits.length + 1 || (!solid && tokens.length == splits.length))
+  && splits.all (fun sp => if solid then sp == d else !sp.isEmpty && sp.all (inSet d))
+  && (solid || tokens.all (fun t => !t.isEmpty))
 
 /-- single-character brackets that are not delimiters -/
 def saneBrackets (op en d : Str) : Option (Char × Char) :=
